@@ -17,6 +17,7 @@ From Coq Require Import List NArith Bool.
 From Connect Require Import Bytes Generated Pool.
 From Connect Require Duplex.
 From Connect Require CPool.
+From Connect Require Plumbing.
 Import ListNotations.
 
 (* For every disciplined program, every initial content of every buffer and
@@ -72,3 +73,9 @@ Theorem pooled_codecs_never_shared : forall ss,
   (forall c i, In (c, i) (CPool.held p) -> ~ In i (CPool.avail p)).
 Proof. exact CPool.no_sharing_lemma. Qed.
 Print Assumptions pooled_codecs_never_shared.
+
+(* an error value a handler returns from many concurrent calls (a sentinel) is
+   only read by the library's handler side *)
+Theorem shared_error_values_are_only_read : handler_never_writes_error_meta = true.
+Proof. exact Plumbing.error_metadata_is_read_only_for_the_library. Qed.
+Print Assumptions shared_error_values_are_only_read.
